@@ -1,3 +1,4 @@
+import os
 """C19 — container headers vs abstract models (DESIGN.md section 3, C19)."""
 from vlib import Ob, run_all
 
@@ -55,7 +56,8 @@ def obligations(tier):
         obs.append(htab_ob(3, 3, 900))
     else:
         obs.append(htab_ob(3, 3, 1500))
-        obs.append(htab_ob(4, 3, 3600))   # (4 ops, 4 keys): no verdict in 50 min
+        if os.environ.get("VERIF_DEEP") == "1":
+            obs.append(htab_ob(4, 3, 7200))   # (4 ops, 3 keys): no verdict in 60 min; (4 ops, 4 keys): none in 50 min
         obs.append(htab_ob(3, 4, 3600))
     return obs
 
